@@ -52,6 +52,8 @@ class Oracle(object):
         return          # params from another dataset: the plan's own failing fit
       raise Violation("fit_raises", "cls=%s,exc=%s" % (name, et),
                       "fit on well-formed input raised %s: %s" % (et, str(exc)[:300]))
+    if _stale_params(h, D):
+      return            # outside the property's option domain for this dataset
     self.checked += 1
     est = h.est
     if live["out"] is not est:
@@ -127,6 +129,9 @@ def _stale_params(h, D):
   nc = p.get("n_components")
   if nc is not None and not (1 <= nc <= d):
     return True
+  if isinstance(p.get("init"), str) and p.get("init") == "lda" and \
+      (d if nc is None else nc) > min(d, D.classes - 1):
+    return True       # 'lda' is documented for n_components <= n_classes - 1 only
   for k in ("init", "prior", "basis"):
     v = p.get(k)
     if isinstance(v, np.ndarray) and v.shape[-1] != d:
